@@ -90,6 +90,8 @@ def run_cases(c, cases, tag, engines=('large', 'fast'), want_spec=True, vflags='
         res['crashes'][eng] = cr
     out, _ = run_lines_sharded(vm, [model_line('large', vflags, x['tree'], x['late'], x['events']) for x in cases], timeout=1500)
     res['model'] = out
+    out, _ = run_lines_sharded(vm, [model_line('fast', vflags, x['tree'], x['late'], x['events']) for x in cases], timeout=1500)
+    res['model_fast'] = out
     if want_spec:
         out, _ = run_lines_sharded(vm, [spec_line(x['tree'], x['late'], x['events']) for x in cases], timeout=1500)
         res['spec'] = out
